@@ -236,3 +236,94 @@ func ruleOffsetOwner() *Rule {
 		},
 	}
 }
+
+// ruleLogPosition: C12/C19 LOG-POSITION.
+//
+// A record's Offset is the position of the log file when the record is written (RECORD-OFFSET), and Truncate cuts the
+// file at it. That is only the record's real position if whoever installs a new descriptor in persistentLog.file
+// positions it before the log is used again: rename() (the common tail of Compact and DiscardEntries) at the end of the
+// new file, Replay() at the end of the last complete record. (Opening in append mode does not replace the Seek: the
+// descriptor's position is 0 until the first write. Append mode WITH the Seek behaves as today and is not reported.)
+func ruleLogPosition() *Rule {
+	const id = "LOG-POSITION"
+	return &Rule{
+		ID: id,
+		Text: "rename() and Replay() return nil only after (*os.File).Seek on the log file to its end (Seek(0, io.SeekEnd)) or to a computed offset from the start: " +
+			"the position a record's Offset is taken from is the position the record is written at.",
+		Floor: 2,
+		Run: func(p *Program) []Obligation {
+			fileFld := p.Field("persistentLog.file")
+			if fileFld == nil {
+				return missing(id, "persistentLog.file")
+			}
+			var out []Obligation
+			// (b) positioning before a successful return
+			for _, name := range []string{"(*persistentLog).rename", "(*persistentLog).Replay"} {
+				fn := p.Func(name)
+				if fn == nil {
+					out = append(out, missing(id, name)...)
+					continue
+				}
+				var seeks []ssa.Instruction
+				var lastStore ssa.Instruction
+				for _, b := range fn.Blocks {
+					for _, in := range b.Instrs {
+						if st, fld := storeField(in); st != nil && fld == fileFld {
+							lastStore = in
+						}
+						c, ok := in.(*ssa.Call)
+						if !ok || calleeName(c.Common()) != "(*os.File).Seek" {
+							continue
+						}
+						u, ok := c.Common().Args[0].(*ssa.UnOp)
+						if !ok {
+							continue
+						}
+						fa, ok := u.X.(*ssa.FieldAddr)
+						if !ok || fieldOf(fa.X.Type(), fa.Field) != fileFld {
+							continue
+						}
+						whence, okw := constIntOf(c.Common().Args[2])
+						_, offConst := constIntOf(stripConvert(c.Common().Args[1]))
+						if okw && ((whence == 2 && isConstInt(c.Common().Args[1], 0)) || (whence == 0 && !offConst)) {
+							seeks = append(seeks, in)
+						}
+					}
+				}
+				rets := 0
+				bad := ""
+				for _, b := range fn.Blocks {
+					ret, ok := b.Instrs[len(b.Instrs)-1].(*ssa.Return)
+					if !ok || len(ret.Results) == 0 {
+						continue
+					}
+					if !isNilConst(returnedValue(ret, len(ret.Results)-1)) {
+						continue // a failing (or propagated) return
+					}
+					rets++
+					covered := false
+					for _, s := range seeks {
+						if instrBlockDominates(s, ret) && (lastStore == nil || lastStore.Parent() != fn || instrBlockDominates(lastStore, s)) {
+							covered = true
+						}
+					}
+					if !covered {
+						bad = p.InstrPos(ret)
+					}
+				}
+				ob := Obligation{Rule: id, Construct: "log file positioned before " + name + " returns successfully", Pos: p.Pos(fn.Pos())}
+				switch {
+				case rets == 0:
+					ob.Verdict, ob.Detail = Undecided, "no successful return found"
+				case bad != "":
+					ob.Verdict = Violated
+					ob.Detail = "a successful return (" + bad + ") is not preceded by a Seek of the log file to its end / to the end of the last complete record after the descriptor was installed: the next record takes its Offset from a position that is not where it is written"
+				default:
+					ob.Verdict, ob.Detail = Discharged, "every successful return is dominated by a positioning Seek on the log file"
+				}
+				out = append(out, ob)
+			}
+			return out
+		},
+	}
+}
